@@ -230,3 +230,67 @@ func ZZ_C20_Demux() {
 	}
 	verifAssert(diff == 0, "bytes preserved")
 }
+
+// zzValid builds a well-formed punch packet for (nonce, key) with the given
+// type, salt and padding.
+func zzValid(tag string, t byte, nonce, key []byte, pad int) []byte {
+	salt := verifBytes(tag+"salt", 8)
+	plain := append([]byte{'H', 'Y', 'R', 'L', 'M', 'v', '1', 0, t}, nonce...)
+	plain = append(plain, verifBytes(tag+"pad", pad)...)
+	h := sha256.New()
+	h.Write(key)
+	h.Write(salt)
+	mask := h.Sum(nil)
+	pkt := append([]byte(nil), salt...)
+	for i := range plain {
+		pkt = append(pkt, plain[i]^mask[i%32])
+	}
+	return pkt
+}
+
+// History: packets of an attempt are diverted while it is registered and reach
+// the reader again once it has been removed - also after packets of that very
+// attempt were seen, and whatever other attempt stays registered.
+//
+//verif:harness kind=api unwind=1200 bound=2-packets(hello,ack),attempts<=2,no-padding
+func ZZ_C20_RemovalEndsDiversion() {
+	ma, na, ka := zzMeta("a")
+	mb, nb, kb := zzMeta("b")
+	p1 := zzValid("p1", 1, na, ka, 0)
+	p2 := zzValid("p2", 2, na, ka, 0)
+	// a packet of A is not at the same time a packet of B (that would be a hash collision)
+	verifAssume(!zzRefDecodes(p1, nb, kb) && !zzRefDecodes(p2, nb, kb))
+	// STUN classification is outside this harness (as in ZZ_C20_Demux)
+	verifAssume(!(p1[4] == 0x21 && p1[5] == 0x12 && p1[6] == 0xa4 && p1[7] == 0x42))
+	verifAssume(!(p2[4] == 0x21 && p2[5] == 0x12 && p2[6] == 0xa4 && p2[7] == 0x42))
+	inner := &zzPC{in: [][]byte{append([]byte(nil), p1...), append([]byte(nil), p2...)}}
+	c, _ := NewPunchPacketConn(inner, 0)
+	verifAssert(c.AddPunchAttempt("A", ma) == nil, "add A")
+	if verifBool("alsoB") {
+		verifAssert(c.AddPunchAttempt("B", mb) == nil, "add B")
+	}
+	buf := make([]byte, 2048)
+	// first read: p1 is diverted, then p2 as well, then the socket is exhausted
+	keepReading := verifBool("removeAfterFirst")
+	if keepReading {
+		// deliver only p1 now
+		inner.in = inner.in[:1]
+		_, _, err := c.ReadFrom(buf)
+		verifAssert(err != nil, "a packet of the registered attempt is withheld")
+		verifAssert(len(c.Events()) == 1, "and reported as an event")
+		c.RemovePunchAttempt("A")
+		inner.in = [][]byte{append([]byte(nil), p2...)}
+		n, _, err := c.ReadFrom(buf)
+		verifAssert(err == nil && n == len(p2), "after removal the attempt's packets reach the reader")
+		d := byte(0)
+		for i := 0; i < n; i++ {
+			d |= buf[i] ^ p2[i]
+		}
+		verifAssert(d == 0, "byte-identical")
+		verifCover("removed")
+		return
+	}
+	_, _, err := c.ReadFrom(buf)
+	verifAssert(err != nil && len(c.Events()) == 2, "both packets of the registered attempt are withheld")
+	verifCover("kept")
+}
